@@ -619,7 +619,7 @@ PROPS = {
     'C15': dict(lean_modules=['SfxProps.C15'], bins=['math'], profiles=['rel'], gen=gen_C15, oracle=True),
     'C16': dict(lean_modules=['SfxProps.C16', 'SfxProps.C16Acc'], bins=['math'], profiles=['rel'], gen=gen_C16, oracle=True),
     'C17': dict(lean_modules=['SfxProps.C17'], bins=['math'], profiles=['rel'], gen=gen_C17),
-    'C08': dict(lean_modules=['SfxProps.C08'], bins=['text'], profiles=['chk', 'rel'], gen=gen_C08),
+    'C08': dict(lean_modules=['SfxProps.C08', 'SfxProps.C08Holds'], bins=['text'], profiles=['chk', 'rel'], gen=gen_C08),
     'C09': dict(lean_modules=['SfxProps.C09'], bins=['text'], profiles=['chk', 'rel'], gen=gen_C09),
     'C11': dict(lean_modules=['SfxProps.C11'], bins=['arith', 'wrap', 'conv', 'math', 'text'], profiles=['chk', 'rel'], gen=gen_C11,
                 rule='union of the request corpora of C01 C02 C06 C07 C18 C04 C05 C03 C12 C08 C09 (sub-sampled in quick), each request executed by the harness built with and '
